@@ -486,5 +486,32 @@ def is_arraylike(v):
     return is_collection(v)
 
 
+# ---- get_trough_component_names
+
+
+def gtcn_rejects(columns, column_names, initial_volumes):
+    names, vols = list(column_names), [_f(v) for v in initial_volumes]
+    if len(names) != columns or len(vols) != columns:
+        return True
+    return any(n is not None and v == 0 for n, v in zip(names, vols))
+
+
+def gtcn_ok(result, name, columns, column_names, initial_volumes):
+    names, vols = list(column_names), [_f(v) for v in initial_volumes]
+    if list(result.keys()) != [f"A{c + 1:02d}" for c in range(columns)]:
+        return False
+    for c, (given, v) in enumerate(zip(names, vols)):
+        got = result[f"A{c + 1:02d}"]
+        if given is not None:
+            want = given
+        elif v > 0:
+            want = f"{name}.column_{c + 1:02d}" if columns > 1 else name
+        else:
+            want = None
+        if got != want:
+            return False
+    return True
+
+
 NS = {k: v for k, v in globals().items() if callable(v) and not k.startswith("_") and k not in ("wrap", "Num", "CeilSet", "Fraction")}
 NS["max"] = _max
